@@ -219,4 +219,122 @@ theorem accepted_is_c11 {ks : List Kw} {t : TyName} (hne : ks ≠ []) (hnd : NoD
     · have := c11Type_of_perm hem (he1 ▸ hpp)
       rw [this, he2, hp2, ht]
 
+/-! ### repeated `signed` / `unsigned` are ignored (`counter |= …`) -/
+
+/-- drop every `signed` after the first and every `unsigned` after the first; `seen` = keywords already read -/
+def collapseFrom : List Kw → List Kw → List Kw
+  | _, [] => []
+  | seen, k :: ks => if isSign k && seen.contains k then collapseFrom seen ks else k :: collapseFrom (seen ++ [k]) ks
+
+/-- the sequence with repeated `signed`/`unsigned` removed -/
+def collapse (ks : List Kw) : List Kw := collapseFrom [] ks
+
+/-- whole-table fact: in a canonical state whose multiset has `signed` (`unsigned`), reading it again changes nothing -/
+theorem idem_table : ∀ p ∈ canonTable, ∀ k ∈ Kw.all, (isSign k && p.2.2.contains k) = true →
+    declspecStep p.1 k = .ok (p.1, p.2.1) := by
+  decide +kernel
+
+theorem noDup_collapseFrom (ks : List Kw) : ∀ seen, NoDupSign seen → NoDupSign (seen ++ collapseFrom seen ks) := by
+  induction ks with
+  | nil => intro seen h; simpa [collapseFrom] using h
+  | cons k ks ih =>
+    intro seen h
+    unfold collapseFrom
+    split
+    · exact ih seen h
+    · rename_i hc
+      have : NoDupSign (seen ++ [k]) := by
+        unfold NoDupSign at h ⊢
+        simp only [List.count_append, List.count_cons, List.count_nil]
+        simp only [Bool.and_eq_true, not_and, Bool.not_eq_true] at hc
+        by_cases hs : isSign k = true
+        · have hnc := hc hs
+          have hnm : k ∉ seen := by simpa using hnc
+          have h0 : seen.count k = 0 := List.count_eq_zero.mpr hnm
+          unfold isSign at hs
+          simp only [Bool.or_eq_true, beq_iff_eq] at hs
+          rcases hs with rfl | rfl
+          · simp only [beq_self_eq_true, if_true] at *
+            constructor
+            · omega
+            · have : (Kw.signed == Kw.unsigned) = false := by decide
+              simp [this]; exact h.2
+          · simp only [beq_self_eq_true, if_true] at *
+            constructor
+            · have : (Kw.unsigned == Kw.signed) = false := by decide
+              simp [this]; exact h.1
+            · omega
+        · unfold isSign at hs
+          simp only [Bool.or_eq_true, beq_iff_eq, not_or] at hs
+          have h1 : (k == Kw.signed) = false := by simpa using hs.1
+          have h2 : (k == Kw.unsigned) = false := by simpa using hs.2
+          simp [h1, h2]; exact h
+      have := ih (seen ++ [k]) this
+      simpa using this
+
+theorem run_collapse (ks : List Kw) : ∀ (seen : List Kw) (s : Nat × TyName),
+    (∃ p ∈ canonTable, p.1 = s.1 ∧ p.2.1 = s.2 ∧ p.2.2.Perm seen) → NoDupSign seen →
+    declspecRun s ks = declspecRun s (collapseFrom seen ks) := by
+  induction ks with
+  | nil => intro seen s _ _; rfl
+  | cons k ks ih =>
+    intro seen s ⟨p, hpm, hp1, hp2, hpp⟩ hnd
+    unfold collapseFrom
+    split
+    · rename_i hc
+      have hc' : (isSign k && p.2.2.contains k) = true := by
+        simp only [Bool.and_eq_true] at hc ⊢
+        refine ⟨hc.1, ?_⟩
+        have : k ∈ seen := by simpa using hc.2
+        simpa using hpp.mem_iff.mpr this
+      have hst := idem_table p hpm k (Kw.mem_all k) hc'
+      rw [run_cons, ← hp1, hst]
+      have hs : (p.1, p.2.1) = s := by rw [hp1, hp2]
+      simp only [hs]
+      exact ih seen s ⟨p, hpm, hp1, hp2, hpp⟩ hnd
+    · rename_i hc
+      rw [run_cons, run_cons]
+      cases hstep : declspecStep s.1 k with
+      | error d => rfl
+      | ok s1 =>
+        simp only
+        have hck := step_table p hpm k (Kw.mem_all k)
+        unfold checkStep at hck
+        rw [hp1, hstep] at hck
+        simp only [Bool.or_eq_true, List.any_eq_true, Bool.and_eq_true] at hck
+        have hnot : ¬ (isSign k = true ∧ p.2.2.contains k = true) := by
+          rintro ⟨h1, h2⟩
+          apply hc
+          simp only [Bool.and_eq_true]
+          refine ⟨h1, ?_⟩
+          have : k ∈ p.2.2 := by simpa using h2
+          simpa using hpp.mem_iff.mp this
+        rcases hck with hck | ⟨q, hqm, ⟨hq1, hq2⟩, hq3⟩
+        · exact absurd hck hnot
+        · have hq3' : q.2.2.Perm (p.2.2 ++ [k]) := List.isPerm_iff.mp hq3
+          have hnd' : NoDupSign (seen ++ [k]) := by
+            have := noDup_collapseFrom [k] seen hnd
+            unfold collapseFrom at this
+            simp only [hc] at this
+            simpa [collapseFrom] using this
+          exact ih (seen ++ [k]) s1 ⟨q, hqm, by simpa using hq1, by simpa using hq2,
+            hq3'.trans (List.Perm.append_right _ hpp)⟩ hnd'
+
+theorem decode_collapse (ks : List Kw) : declspecDecode ks = declspecDecode (collapse ks) := by
+  unfold declspecDecode collapse
+  rw [run_collapse ks [] (initCounter, initTy)
+    ⟨(initCounter, initTy, []), List.mem_cons_self .., rfl, rfl, List.Perm.refl _⟩ (by decide)]
+
+theorem noDup_collapse (ks : List Kw) : NoDupSign (collapse ks) := by
+  have := noDup_collapseFrom ks [] (by decide)
+  simpa [collapse] using this
+
+theorem collapse_ne_nil {ks : List Kw} (h : ks ≠ []) : collapse ks ≠ [] := by
+  cases ks with
+  | nil => exact absurd rfl h
+  | cons k ks =>
+    unfold collapse collapseFrom
+    simp
+
+
 end ChibiVerif.Layout
